@@ -557,8 +557,14 @@ impl Wal {
 
         let offset = file.metadata()?.len();
         file.seek(SeekFrom::End(0))?;
+        #[cfg(nervusdb_verif)]
+        crate::verif_io::step("wal_write", &self.path, offset, 4)?;
         file.write_all(&len.to_le_bytes())?;
+        #[cfg(nervusdb_verif)]
+        crate::verif_io::step("wal_write", &self.path, offset + 4, 4)?;
         file.write_all(&crc.to_le_bytes())?;
+        #[cfg(nervusdb_verif)]
+        crate::verif_io::step("wal_write", &self.path, offset + 8, body.len() as u64)?;
         file.write_all(&body)?;
         file.flush()?;
         Ok(offset)
@@ -568,7 +574,11 @@ impl Wal {
         let Some(file) = self.file.as_mut() else {
             return Err(Error::WalProtocol("wal file is closed"));
         };
+        #[cfg(nervusdb_verif)]
+        crate::verif_io::step("wal_sync", &self.path, 0, 0)?;
         file.sync_data()?;
+        #[cfg(nervusdb_verif)]
+        crate::verif_io::synced(&self.path);
         Ok(())
     }
 
@@ -582,6 +592,8 @@ impl Wal {
         };
 
         {
+            #[cfg(nervusdb_verif)]
+            crate::verif_io::step("tmp_create", &tmp, 0, 0)?;
             let mut tmp_file = OpenOptions::new()
                 .write(true)
                 .create_new(true)
@@ -599,13 +611,29 @@ impl Wal {
                 Ok(())
             }
 
+            #[cfg(nervusdb_verif)]
+            crate::verif_io::step("tmp_write", &tmp, 0, 0)?;
             append_to(&mut tmp_file, &WalRecord::BeginTx { txid })?;
             for op in ops {
+                #[cfg(nervusdb_verif)]
+                crate::verif_io::step("tmp_write", &tmp, 0, 0)?;
                 append_to(&mut tmp_file, &op)?;
             }
+            #[cfg(nervusdb_verif)]
+            crate::verif_io::step("tmp_write", &tmp, 0, 0)?;
             append_to(&mut tmp_file, &WalRecord::CommitTx { txid })?;
             tmp_file.flush()?;
+            #[cfg(nervusdb_verif)]
+            crate::verif_io::step("tmp_sync", &tmp, 0, 0)?;
             tmp_file.sync_data()?;
+            #[cfg(nervusdb_verif)]
+            crate::verif_io::synced(&tmp);
+        }
+
+        #[cfg(nervusdb_verif)]
+        {
+            crate::verif_io::step("rename", &self.path, 0, 0)?;
+            crate::verif_io::before_rename(&tmp, &self.path);
         }
 
         // Best-effort replace (POSIX: rename overwrites; Windows: needs remove first).
